@@ -26,8 +26,18 @@ Qed.
 
 Definition lim_none (s : base) : bool := match b_lim s with None => true | Some _ => false end.
 
+Lemma zlt_nat_spec k : forall n, if zlt_nat n k then Z.to_nat n < k else k <= Z.to_nat n.
+Proof.
+  induction k as [|k IH]; intro n; simpl; [lia|].
+  destruct (n <=? 0)%Z eqn:E; [lia|]. specialize (IH (n - 1)%Z).
+  destruct (zlt_nat (n - 1) k); lia.
+Qed.
+
+Lemma clamp_min k n : clamp k n = Nat.min k (Z.to_nat n).
+Proof. unfold clamp. pose proof (zlt_nat_spec k n). destruct (zlt_nat n k); lia. Qed.
+
 Lemma clamp_le k n : (0 < n)%Z -> clamp k n <= k /\ (Z.of_nat (clamp k n) <= n)%Z.
-Proof. unfold clamp. intro Hn. destruct (Z.of_nat k >? n)%Z eqn:E; lia. Qed.
+Proof. rewrite clamp_min. lia. Qed.
 
 Lemma base_read_spec comb s k bs e s' :
   base_read comb s k = ((bs, e), s') ->
